@@ -395,3 +395,54 @@ def build():
                      ensures=[('no-configured-source-rule:-False', lambda c: z3.Implies(z3.Length(c.pre.list(c.pre.attr(c.pre.attr(c.p.self, 'rule_manager'), 'all_sources'))) == 0, z3.Not(S.bval(c.res))))],
                      modifies=lambda c: {}, fresh_fields=['attr:original_path', 'list']))
     return reg
+
+
+def static_language_restriction(reg, tier):
+    """every loop over a rule list in TaintRuleApplier reads the rule's language (syntactic; on the unchanged tree none does: known finding F6)"""
+    from lianvc import source
+    m = source.load(TA)
+    offenders, loops_seen = [], 0
+    for q in sorted(m.functions):
+        if not q.startswith('TaintRuleApplier.'):
+            continue
+        fn = m.function(q)
+        for n in ast.walk(fn):
+            if isinstance(n, ast.For) and 'rule_manager.all_' in ast.unparse(n.iter) or (isinstance(n, ast.For) and ast.unparse(n.iter) == 'rules'):
+                loops_seen += 1
+                if not any(isinstance(x, ast.Attribute) and x.attr == 'lang' for x in ast.walk(n)):
+                    offenders.append(f'{q}:{n.lineno} for {ast.unparse(n.target)} in {ast.unparse(n.iter)}')
+    ok = loops_seen > 0 and not offenders
+    return [dict(name=f'{PROPERTY}:static:every-rule-applier-honours-the-language-restriction-of-a-rule', kind='static', verdict='unsat' if ok else 'sat', backend='ast-evaluation',
+                 time_s=0.0, model=None if ok else {'detail': offenders[:12]}, reason='' if ok else f'{len(offenders)} of {loops_seen} rule loops never read rule.lang: {offenders[:3]}')]
+
+
+EXTRA_OBLIGATIONS = [static_language_restriction]
+
+ASSUMPTIONS = [
+    'THE DATA-DEPENDENCE HALF IS NOT PROVED: that a non-zero intersection of the propagated tag and the sink tag implies a dependence in the program needs soundness of the SFG '
+    'construction and of PathFinder.propagate_taint (whole points-to engine); only the rule side of the statement is decided',
+    'the state flow graph is an opaque networkx DiGraph: predecessors/get_edge_data are uninterpreted functions of (graph, node); edge attribute dicts hold SFGEdge objects',
+    f'taint tags are treated as {BITW}-bit vectors (|, & encoded over the bits); get_stmt_used_symbol_and_state_by_pos is a pure read (assumed); TaintEnv.get_state_tag/get_symbol_tag are uninterpreted functions of (environment object, id); the work queue (collections.deque) content is not modelled',
+    "str.split('.') is an uninterpreted function from a string to a sequence of strings; util.access_path_formatter returns some string; os.path.basename as in C18",
+    'rule records are well-typed: names / symbol names are strings, keys strings or None (a nameless field_write rule would raise TypeError in `rule.name in node.operation`)',
+    'the source appliers apply_field_read/call_stmt/object_call_stmt_source_rules (which also write tags), should_apply_object_call_stmt_sink_rules, find_sources, '
+    'find_sinks, apply_propagation_rules and TaintAnalysis.run are not under contract',
+    'monotonicity under rule-set extension is not stated as a lemma: the proved justifications are existentials over the rule lists, which are monotone, but propagation rules can '
+    'also cut flows (unset), so "adding rules never removes flows" is not decided',
+    'PathFinder.propagate_taint / reconstruct_define_use_path, save_graph_to_dot, dump_tainted_sfg_by_method are opaque with an assumed frame (do not touch the analysis-wide '
+    'taint environment attribute)',
+]
+EXPLANATION = ('Deductive proof on the real taint_analysis.py of the rule side: which rules may be taken as matching a sink, over which edges and argument positions a tag may '
+               'enter the sink tag (documented %arg mapping, receiver shift for object calls), that evaluating a sink changes nothing in the graph, and that find_flows reports a '
+               'pair only on a non-zero tag intersection, in a fresh environment per pair, restoring the analysis-wide one. The language restriction is a recorded finding (F6).')
+QUICK_CANARIES = {
+    'TaintRuleApplier.check_method_name': ['flip-comparison', 'negate-condition', 'flip-bool'],
+    'TaintRuleApplier.get_sink_tag_by_rules': ['off-by-one', 'flip-comparison'],
+    'TaintRuleApplier.should_apply_call_stmt_sink_rules': ['flip-comparison', 'negate-condition'],
+    'TaintRuleApplier.apply_record_write_sink_rules': ['flip-comparison', 'negate-condition'],
+    'TaintRuleApplier.apply_field_write_sink_rules': ['flip-comparison', 'negate-condition'],
+    'TaintAnalysis.get_state_with_inclusion_tag': ['delete-stmt[tag |= self.taint_manager.get_state_tag(curr_state.node_id)]'],
+    'TaintAnalysis.get_state_with_inclusion_tag': ['delete-stmt[tag |= self.taint_manager.get_state_tag(curr_state.node_id)]'],
+    'TaintAnalysis.find_flows': ['flip-comparison', 'delete-stmt[self.taint_manager = original_manager]', 'delete-stmt[self.taint_manager = TaintEnv()]'],
+}
+MIN_CANARY_KILL_RATIO = 0.6
